@@ -4,6 +4,7 @@ package main
 
 import (
 	"flag"
+	"math/big"
 	"math/rand"
 	"strconv"
 	"strings"
@@ -153,6 +154,111 @@ func (r rnd) subReduce(ints bool) *tree {
 	return r.tree(a0, a1)
 }
 
+// ---- integers of the whole 64-bit type
+
+// wide: a random int64, biased to the ends of the type, to powers of two and to zero
+func (r rnd) wide() int64 {
+	const max, min = int64(^uint64(0) >> 1), -int64(^uint64(0)>>1) - 1
+	switch r.Intn(8) {
+	case 0:
+		return min + int64(r.Intn(5))
+	case 1:
+		return max - int64(r.Intn(5))
+	case 2:
+		return int64(r.Intn(9)) - 4
+	case 3:
+		v := int64(1) << uint(31+r.Intn(32))
+		if r.Intn(2) == 0 {
+			v = -v
+		}
+		return v + int64(r.Intn(3)) - 1
+	}
+	return int64(r.Uint64())
+}
+
+func w2s(v int64) string { return strconv.FormatInt(v, 10) }
+
+// wideRange picks start, stop and an increment for which the documented range has at most 40 elements
+// (vector selection only: what the elements are is the specification's business)
+func (r rnd) wideRange() (start, stop, incr int64) {
+	for {
+		start, stop = r.wide(), r.wide()
+		span := new(big.Int).Sub(big.NewInt(stop), big.NewInt(start)) // exact
+		k := int64(1 + r.Intn(40))
+		q := new(big.Int).Quo(span, big.NewInt(k)) // truncated: |q| * k <= |span|
+		switch r.Intn(4) {
+		case 0:
+			q.Add(q, big.NewInt(int64(r.Intn(3))-1))
+		case 1:
+			q = big.NewInt(r.wide())
+		}
+		if !q.IsInt64() || q.Sign() == 0 {
+			continue
+		}
+		incr = q.Int64()
+		if span.Sign() == 0 {
+			return
+		}
+		if span.Sign() != q.Sign() { // against the documented direction (the helper refuses): now and then
+			if r.Intn(10) == 0 {
+				return
+			}
+			continue
+		}
+		n := new(big.Int).Quo(span, q)
+		if n.Sign() >= 0 && n.Cmp(big.NewInt(40)) <= 0 {
+			return
+		}
+	}
+}
+
+func (r rnd) wideSample(s *sample) {
+	l := r.list(5)
+	switch r.Intn(6) {
+	case 0, 1:
+		a, b, c := r.wideRange()
+		if r.Intn(2) == 0 {
+			s.m = []string{w2s(a), w2s(b), w2s(c)}
+			s.x = call("@range", arg(0), arg(1), arg(2))
+		} else {
+			s.x = call("@range", lit(w2s(a)), lit(w2s(b)), lit(w2s(c)))
+		}
+		if r.Intn(5) == 0 {
+			s.x = call("@len", s.x)
+		}
+	case 2:
+		s.x = call("@select", r.supply(l, s), lit(w2s(r.wide())))
+	case 3:
+		s.x = call("@slice", r.supply(l, s), lit(w2s(r.wide())))
+	case 4:
+		st, ln := r.wide(), r.wide()
+		if r.Intn(2) == 0 {
+			st = int64(r.Intn(2*len(l)+5) - len(l) - 2)
+		} else if r.Intn(2) == 0 {
+			ln = int64(r.Intn(len(l) + 2))
+		}
+		if ln < 0 && r.Intn(8) != 0 {
+			ln = -(ln + 1)
+		}
+		s.x = call("@slice", r.supply(l, s), lit(w2s(st)), lit(w2s(ln)))
+	default: // @for carrying a wide value: start + k*step stays inside the type for the k the condition admits
+		n := 1 + r.Intn(4)
+		for {
+			a, c := r.wide(), r.wide()
+			if r.Intn(2) == 0 {
+				c = int64(r.Intn(9)) - 4
+			}
+			last := new(big.Int).Add(big.NewInt(a), new(big.Int).Mul(big.NewInt(c), big.NewInt(int64(n))))
+			if !last.IsInt64() && r.Intn(6) != 0 {
+				continue
+			}
+			s.m = []string{w2s(a)}
+			s.x = call("@for", arg(0), call("lt", arg(1), ilit(n)), call(r.pick("sumi", "sumi", "subi"), arg(0), lit(w2s(c))))
+			break
+		}
+	}
+}
+
 type sample struct {
 	x  *tree
 	m  []string
@@ -213,7 +319,15 @@ func (r rnd) sample() sample {
 	s := sample{ks: [][2]string{{"k", r.pick("x", "a", "", "é", "12")}, {"n", strconv.Itoa(r.Intn(5))}}}
 	l := r.list(7)
 	n := len(l)
-	switch r.Intn(16) {
+	kind := r.Intn(18)
+	if kind >= 16 {
+		r.wideSample(&s)
+		if s.m == nil {
+			s.m = []string{}
+		}
+		return s
+	}
+	switch kind {
 	case 0: // split of an arbitrary string
 		d := r.delim()
 		var sb strings.Builder
